@@ -155,6 +155,27 @@ def _initially_active(spec):
     return {c['id'] for c in spec.get('choices', []) if c['origin'] in perm}
 
 
+def _choice_levels(spec):
+    """Choice depth levels as used for the choice ordering: level 0 = choices reachable from the start nodes without
+    passing another choice, level k+1 = choices first reached through an option of a level-k choice"""
+    succ = _succ(spec, with_choices=False)
+    levels = {}
+    seen = set()
+    frontier = set(spec['start'])
+    level = 0
+    while frontier and level < 50:
+        reach = _reach(succ, frontier)-seen if seen else _reach(succ, frontier)
+        seen |= reach
+        nxt = set()
+        for c in spec.get('choices', []):
+            if c['id'] not in levels and c['origin'] in seen:
+                levels[c['id']] = level
+                nxt |= set(c['opts'])
+        frontier = nxt-seen
+        level += 1
+    return levels
+
+
 def _activation_against_id_order(spec, types):
     full = _succ(spec, with_choices=True)
     init = _initially_active(spec)
@@ -181,16 +202,26 @@ def complete_ordering_constraint_against_id_order(case, v):
 
 
 def fast_linked_first_choice_conditional(case, v):
-    """KF09: FAST encoder collapses LINKED selection choices into the variable of the lowest-id choice; when that choice
-    is not active from the start the other linked choices are pinned to option 0 in branches where it is inactive"""
+    """KF09: FAST encoder collapses LINKED selection choices into the variable of the leader (first by choice depth level,
+    then id); every other linked choice is 'forced' to index 0. A follower that can be active without the leader, or that
+    is taken before the leader (lower id, active at the same time), pins the linked index to option 0"""
     spec = _spec(case)
     enc = case.get('enc') or case.get('mode') or _d(v).get('mode')
     if enc != 'FAST':
         return False
-    init = _initially_active(spec)
+    levels = _choice_levels(spec)
+    full = _succ(spec, with_choices=True)
     for con, members in _choice_constraints(spec):
-        if con['type'] == 'LINKED' and members[0]['id'] not in init:
-            return True
+        if con['type'] != 'LINKED':
+            continue
+        # the variable belongs to the 'leader': first by (choice depth level, id), as in the influence matrix ordering
+        leader = min(members, key=lambda c: (levels.get(c['id'], 99), c['id']))
+        below = _reach(full, leader['opts'])
+        for f in members:
+            if f is leader or f['origin'] in below:
+                continue   # a follower below an option of the leader only becomes active after the leader was taken
+            if levels.get(f['id'], 99) > 0 or f['id'] < leader['id']:
+                return True   # follower can be active without / be taken before the leader: pinned to option 0
     return False
 
 
